@@ -12,7 +12,7 @@ EXTRA = {'rxsci/operators/scan.py': ['C12', 'C20'], 'rxsci/state/memory_store.py
          'rxsci/compression/z.py': ['C16', 'C19'], 'rxsci/compression/zstd.py': ['C16', 'C19'], 'rxsci/io/file.py': ['C18', 'C19'], 'rxsci/data/codec.py': ['C17', 'C19'],
          'rxsci/math/min.py': ['C12', 'C09', 'C01'], 'rxsci/math/max.py': ['C12', 'C09', 'C01'], 'rxsci/math/sum.py': ['C12', 'C09', 'C01'], 'rxsci/math/mean.py': ['C12', 'C09', 'C01'],
          'rxsci/framing/length_prefix.py': ['C15'], 'rxsci/mux/muxconnectable.py': ['C08', 'C01'], 'rxsci/operators/progress.py': ['C09', 'C01'], 'rxsci/data/sort.py': ['C10'], 'rxsci/data/to_deque.py': ['C10'], 'rxsci/error/map.py': ['C13', 'C03'], 'rxsci/error/ignore.py': ['C13', 'C03'], 'rxsci/operators/distinct_until_changed.py': ['C10', 'C02'],
-         'rxsci/operators/distinct.py': ['C10', 'C02'], 'rxsci/data/lag.py': ['C10', 'C02'], 'rxsci/container/parquet.py': ['C20'], 'rxsci/container/csv.py': ['C18'], 'rxsci/container/json.py': ['C19']}
+         'rxsci/operators/distinct.py': ['C10', 'C02'], 'rxsci/data/lag.py': ['C10', 'C02'], 'rxsci/container/parquet.py': ['C20'], 'rxsci/container/csv.py': ['C18'], 'rxsci/container/json.py': ['C19'], 'rxsci/operators/tee_map.py': ['C13']}
 def main():
     args = sys.argv[1:]
     assert sh(f'git -C {REPO} status --porcelain').stdout.strip() == ''
